@@ -6,4 +6,313 @@ import TT.Lemmas.GramBin
 namespace TT.Lemmas.Unbin
 open TT TT.Spec TT.Lemmas.GramBin
 
+abbrev Rule := Func × Lin × Nat
+
+/-! ### `upsert` and `Grammar.add` seen on the list of rules -/
+
+theorem upsert_cases {κ ν} [DecidableEq κ] (k : κ) (F : Option ν → ν) (m : AList κ ν) :
+    ((∀ p ∈ m, p.1 ≠ k) ∧ AList.upsert k F m = m ++ [(k, F none)]) ∨
+    (∃ m1 v m2, m = m1 ++ (k, v) :: m2 ∧ (∀ p ∈ m1, p.1 ≠ k) ∧
+      AList.upsert k F m = m1 ++ (k, F (some v)) :: m2) := by
+  induction m with
+  | nil => left; simp [AList.upsert]
+  | cons a r ih =>
+    obtain ⟨a, v⟩ := a
+    simp only [AList.upsert]
+    by_cases h : a = k
+    · subst h
+      right
+      exact ⟨[], v, r, by simp⟩
+    · simp only [h, if_false]
+      rcases ih with ⟨h1, h2⟩ | ⟨m1, v', m2, h1, h2, h3⟩
+      · left
+        refine ⟨?_, by rw [h2]; rfl⟩
+        intro p hp
+        rcases List.mem_cons.1 hp with rfl | hp
+        · exact h
+        · exact h1 p hp
+      · right
+        refine ⟨(a, v) :: m1, v', m2, by rw [h1]; rfl, ?_, by rw [h3]; rfl⟩
+        intro p hp
+        rcases List.mem_cons.1 hp with rfl | hp
+        · exact h
+        · exact h2 p hp
+
+theorem rules_append (g1 g2 : Grammar) : Grammar.rules (g1 ++ g2) = Grammar.rules g1 ++ Grammar.rules g2 := by
+  simp [Grammar.rules]
+
+theorem rules_single (f : Func) (ls : AList Lin (AList VertKey Nat)) :
+    Grammar.rules [(f, ls)] = ls.map fun p => (f, p.1, vsum p.2) := by
+  simp [Grammar.rules, vsum]
+
+/-- adding a count either inserts one new rule or raises the count of one rule, everything else stays in place -/
+theorem rules_add_cases (G : Grammar) (f : Func) (l : Lin) (v : VertKey) (n : Nat) :
+    ∃ X Y, (G.rules = X ++ Y ∧ (G.add f l v n).rules = X ++ (f, l, n) :: Y) ∨
+      (∃ c, G.rules = X ++ (f, l, c) :: Y ∧ (G.add f l v n).rules = X ++ (f, l, c + n) :: Y) := by
+  unfold Grammar.add
+  rcases upsert_cases f (fun o => AList.upsert l (fun o2 => AList.upsert v (fun o3 => o3.getD 0 + n) (o2.getD []))
+      (o.getD [])) G with ⟨_, h2⟩ | ⟨G1, ls, G2, h1, _, h3⟩
+  · refine ⟨G.rules, [], Or.inl ⟨by simp, ?_⟩⟩
+    rw [h2, rules_append, rules_single]
+    simp [AList.upsert, vsum]
+  · rw [h3, h1]
+    simp only [Option.getD_some]
+    rcases upsert_cases l (fun o2 => AList.upsert v (fun o3 => o3.getD 0 + n) (o2.getD [])) ls with
+      ⟨_, k2⟩ | ⟨ls1, vs, ls2, k1, _, k3⟩
+    · refine ⟨Grammar.rules G1 ++ ls.map (fun p => (f, p.1, vsum p.2)), Grammar.rules G2, Or.inl ⟨?_, ?_⟩⟩
+      · rw [rules_append, rules_cons]; simp
+      · rw [rules_append, rules_cons, k2]; simp [AList.upsert, vsum]
+    · refine ⟨Grammar.rules G1 ++ ls1.map (fun p => (f, p.1, vsum p.2)),
+        ls2.map (fun p => (f, p.1, vsum p.2)) ++ Grammar.rules G2, Or.inr ⟨vsum vs, ?_, ?_⟩⟩
+      · rw [rules_append, rules_cons, k1]; simp
+      · rw [rules_append, rules_cons, k3]; simp [vsum_upsert]
+
+
+/-- a rule with this function and linearization is present -/
+def hasKey (rs : List Rule) (f : Func) (l : Lin) : Prop := ∃ c, (f, l, c) ∈ rs
+
+/-- weighted sum of the counts -/
+def rsum (w : Func → Lin → Nat) (rs : List Rule) : Nat := (rs.map fun e => w e.1 e.2.1 * e.2.2).sum
+
+theorem rsum_append (w : Func → Lin → Nat) (a b : List Rule) : rsum w (a ++ b) = rsum w a + rsum w b := by
+  simp [rsum]
+
+theorem rsum_cons (w : Func → Lin → Nat) (e : Rule) (b : List Rule) :
+    rsum w (e :: b) = w e.1 e.2.1 * e.2.2 + rsum w b := by
+  simp [rsum]
+
+theorem hasKey_add (G : Grammar) (f0 : Func) (l0 : Lin) (v : VertKey) (n : Nat) (f : Func) (l : Lin) :
+    hasKey (G.add f0 l0 v n).rules f l ↔ (f = f0 ∧ l = l0) ∨ hasKey G.rules f l := by
+  obtain ⟨X, Y, h⟩ := rules_add_cases G f0 l0 v n
+  rcases h with ⟨h1, h2⟩ | ⟨c, h1, h2⟩
+  · rw [h1, h2]
+    simp only [hasKey, List.mem_append, List.mem_cons, Prod.mk.injEq]
+    constructor
+    · rintro ⟨c, h | ⟨a, b, _⟩ | h⟩
+      · exact Or.inr ⟨c, Or.inl h⟩
+      · exact Or.inl ⟨a, b⟩
+      · exact Or.inr ⟨c, Or.inr h⟩
+    · rintro (⟨a, b⟩ | ⟨c, h | h⟩)
+      · exact ⟨n, Or.inr (Or.inl ⟨a, b, rfl⟩)⟩
+      · exact ⟨c, Or.inl h⟩
+      · exact ⟨c, Or.inr (Or.inr h)⟩
+  · rw [h1, h2]
+    simp only [hasKey, List.mem_append, List.mem_cons, Prod.mk.injEq]
+    constructor
+    · rintro ⟨c', h | ⟨a, b, _⟩ | h⟩
+      · exact Or.inr ⟨c', Or.inl h⟩
+      · exact Or.inl ⟨a, b⟩
+      · exact Or.inr ⟨c', Or.inr (Or.inr h)⟩
+    · rintro (⟨a, b⟩ | ⟨c', h | ⟨a, b, _⟩ | h⟩)
+      · exact ⟨c + n, Or.inr (Or.inl ⟨a, b, rfl⟩)⟩
+      · exact ⟨c', Or.inl h⟩
+      · exact ⟨c + n, Or.inr (Or.inl ⟨a, b, rfl⟩)⟩
+      · exact ⟨c', Or.inr (Or.inr h)⟩
+
+theorem rsum_add (w : Func → Lin → Nat) (G : Grammar) (f : Func) (l : Lin) (v : VertKey) (n : Nat) :
+    rsum w (G.add f l v n).rules = rsum w G.rules + w f l * n := by
+  obtain ⟨X, Y, h⟩ := rules_add_cases G f l v n
+  rcases h with ⟨h1, h2⟩ | ⟨c, h1, h2⟩
+  · rw [h1, h2]; simp only [rsum_append, rsum_cons]; omega
+  · rw [h1, h2]; simp only [rsum_append, rsum_cons, Nat.mul_add]; omega
+
+/-! ### grammars built by a sequence of additions -/
+
+def addD (G : Grammar) (e : Rule) : Grammar := G.add e.1 e.2.1 .default e.2.2
+def build (A : List Rule) (G : Grammar) : Grammar := A.foldl addD G
+
+theorem build_nil (G : Grammar) : build [] G = G := rfl
+theorem build_cons (e : Rule) (A : List Rule) (G : Grammar) : build (e :: A) G = build A (addD G e) := rfl
+theorem build_append (A B : List Rule) (G : Grammar) : build (A ++ B) G = build B (build A G) := by
+  simp [build, List.foldl_append]
+
+theorem hasKey_build : ∀ (A : List Rule) (G : Grammar) (f : Func) (l : Lin),
+    hasKey (build A G).rules f l ↔ hasKey A f l ∨ hasKey G.rules f l
+  | [], G, f, l => by simp [build_nil, hasKey]
+  | e :: A, G, f, l => by
+    rw [build_cons, hasKey_build A, addD, hasKey_add]
+    obtain ⟨f0, l0, c0⟩ := e
+    simp only [hasKey, List.mem_cons, Prod.mk.injEq]
+    constructor
+    · rintro (⟨c, h⟩ | ⟨a, b⟩ | h)
+      · exact Or.inl ⟨c, Or.inr h⟩
+      · exact Or.inl ⟨c0, Or.inl ⟨a, b, rfl⟩⟩
+      · exact Or.inr h
+    · rintro (⟨c, ⟨a, b, _⟩ | h⟩ | h)
+      · exact Or.inr (Or.inl ⟨a, b⟩)
+      · exact Or.inl ⟨c, h⟩
+      · exact Or.inr (Or.inr h)
+
+theorem rsum_build (w : Func → Lin → Nat) : ∀ (A : List Rule) (G : Grammar),
+    rsum w (build A G).rules = rsum w G.rules + rsum w A
+  | [], G => by simp [build_nil, rsum]
+  | e :: A, G => by
+    rw [build_cons, rsum_build w A, addD, rsum_add, rsum_cons]; omega
+
+/-! ### no rule occurs twice in a grammar built by additions -/
+
+def GN (G : Grammar) : Prop := (G.map (·.1)).Nodup ∧ ∀ p ∈ G, (p.2.map (·.1)).Nodup
+
+theorem upsert_keys_nodup {κ ν} [DecidableEq κ] (k : κ) (F : Option ν → ν) (m : AList κ ν)
+    (h : (m.map (·.1)).Nodup) : ((AList.upsert k F m).map (·.1)).Nodup := by
+  rcases upsert_cases k F m with ⟨h1, h2⟩ | ⟨m1, v, m2, h1, _, h3⟩
+  · rw [h2, List.map_append, List.nodup_append]
+    refine ⟨h, by simp, ?_⟩
+    intro a ha b hb
+    simp only [List.map_cons, List.map_nil, List.mem_singleton] at hb
+    obtain ⟨p, hp, rfl⟩ := List.mem_map.1 ha
+    rw [hb]; exact h1 p hp
+  · rw [h3]; rw [h1] at h; simpa using h
+
+theorem GN_add (G : Grammar) (f : Func) (l : Lin) (v : VertKey) (n : Nat) (h : GN G) : GN (G.add f l v n) := by
+  refine ⟨upsert_keys_nodup _ _ _ h.1, ?_⟩
+  unfold Grammar.add
+  rcases upsert_cases f (fun o => AList.upsert l (fun o2 => AList.upsert v (fun o3 => o3.getD 0 + n) (o2.getD []))
+      (o.getD [])) G with ⟨_, h2⟩ | ⟨G1, ls, G2, h1, _, h3⟩
+  · rw [h2]
+    intro p hp
+    rcases List.mem_append.1 hp with hp | hp
+    · exact h.2 p hp
+    · simp only [List.mem_singleton] at hp
+      rw [hp]; simp [AList.upsert]
+  · rw [h3]
+    intro p hp
+    rcases List.mem_append.1 hp with hp | hp
+    · exact h.2 p (by rw [h1]; simp [hp])
+    · rcases List.mem_cons.1 hp with rfl | hp
+      · exact upsert_keys_nodup _ _ _ (h.2 (f, ls) (by rw [h1]; simp))
+      · exact h.2 p (by rw [h1]; simp [hp])
+
+theorem GN_build : ∀ (A : List Rule) (G : Grammar), GN G → GN (build A G)
+  | [], _, h => h
+  | _ :: A, G, h => GN_build A _ (GN_add G _ _ _ _ h)
+
+def keyOf (e : Rule) : Func × Lin := (e.1, e.2.1)
+
+theorem rules_keys_nodup (G : Grammar) (h : GN G) : (G.rules.map keyOf).Nodup := by
+  unfold List.Nodup
+  rw [List.pairwise_map]
+  unfold Grammar.rules
+  rw [List.pairwise_flatMap]
+  constructor
+  · rintro ⟨f, ls⟩ hp
+    have := h.2 (f, ls) hp
+    unfold List.Nodup at this
+    rw [List.pairwise_map] at this
+    simp only [List.pairwise_map]
+    refine this.imp ?_
+    intro a b hab e
+    simp only [keyOf, Prod.mk.injEq] at e
+    exact hab e.2
+  · have := h.1
+    unfold List.Nodup at this
+    rw [List.pairwise_map] at this
+    refine this.imp ?_
+    rintro ⟨f1, ls1⟩ ⟨f2, ls2⟩ hab x hx y hy e
+    simp only [List.mem_map] at hx hy
+    obtain ⟨p, _, rfl⟩ := hx
+    obtain ⟨q, _, rfl⟩ := hy
+    simp only [keyOf, Prod.mk.injEq] at e
+    exact hab e.1
+
+theorem GN_nil : GN [] := by simp [GN]
+
+
+/-! ### the additions made by `binarizeRule none` and `binarizeGrammar _ none` -/
+
+/-- the chain written for the rule "`h` -> `func[i]` `func[i+1]` ... " with linearization `t`, `k` further
+    binarization symbols needed, label counter at `s` -/
+def chainR (func : Func) : (k : Nat) → (i : Nat) → (h : Str) → (t : Lin) → (s : Nat) → List (Func × Lin)
+  | 0, i, h, t, _ => [([h, func[i]?.getD [], func[i + 1]?.getD []], t)]
+  | k + 1, i, h, t, s =>
+    ([h, func[i]?.getD [], uniqueLabel (s + 1)], topLin t) ::
+      chainR func k (i + 1) (uniqueLabel (s + 1)) (restLin t) (s + 1)
+
+def withCount (c : Nat) (x : Func × Lin) : Rule := (x.1, x.2, c)
+
+/-- number of labels a rule consumes -/
+def nlab (f : Func) : Nat := f.length - 3
+
+def ruleAdds (s : Nat) (f : Func) (l : Lin) (c : Nat) : List Rule :=
+  if f.length ≤ 3 then [(f, l, c)] else (chainR f (f.length - 3) 1 (f[0]?.getD []) l s).map (withCount c)
+
+def allAdds : Nat → List Rule → List Rule
+  | _, [] => []
+  | s, e :: R => ruleAdds s e.1 e.2.1 e.2.2 ++ allAdds (s + nlab e.1) R
+
+/-- the rules of `g` after reordering -/
+def reordered (r : Reordering) (g : Grammar) : List Rule :=
+  g.rules.map fun e => ((reorder r e.1 e.2.1).1, (reorder r e.1 e.2.1).2, e.2.2)
+
+theorem genState_ext (a : GenState) (n : Nat) (h : a.numb = n) : a = ⟨n⟩ := by
+  cases a; simp_all
+
+theorem binMid_build (func : Func) (vert : List Str) (fo : List Nat) (cnt : Nat) :
+    ∀ (steps i : Nat) (bl : Str) (tl : Lin) (st : GenState) (res : Grammar),
+    (binMid none func vert fo cnt i steps bl tl st res).2.2.1.numb = st.numb + steps ∧
+    (binMid none func vert fo cnt i steps bl tl st res).2.2.2.add
+        [(binMid none func vert fo cnt i steps bl tl st res).1, func[i + steps + 1]?.getD [],
+          func[i + steps + 2]?.getD []]
+        (restLin (binMid none func vert fo cnt i steps bl tl st res).2.1) .default cnt =
+      build ((chainR func steps (i + 1) bl (restLin tl) st.numb).map (withCount cnt)) res
+  | 0, i, bl, tl, st, res => by
+    rw [binMid_zero]
+    simp [chainR, withCount, build, addD]
+  | k + 1, i, bl, tl, st, res => by
+    rw [binMid_succ]
+    have ih := binMid_build func vert fo cnt k (i + 1) (uniqueLabel (st.numb + 1)) (restLin tl) ⟨st.numb + 1⟩
+      (res.add [bl, func[i + 1]?.getD [], uniqueLabel (st.numb + 1)] (topLin (restLin tl)) .default cnt)
+    have e1 : i + 1 + k + 1 = i + (k + 1) + 1 := by omega
+    have e2 : i + 1 + k + 2 = i + (k + 1) + 2 := by omega
+    rw [e1, e2] at ih
+    refine ⟨?_, ?_⟩
+    · have := ih.1
+      simp only [nextLabel] at this ⊢
+      rw [this]; omega
+    · simp only [nextLabel]
+      rw [ih.2]
+      simp [chainR, withCount, build, addD]
+
+theorem binarizeRule_build (f : Func) (l : Lin) (c : Nat) (vert : List Str) (st : GenState) (res : Grammar) :
+    binarizeRule none f l c vert st res = (⟨st.numb + nlab f⟩, build (ruleAdds st.numb f l c) res) := by
+  by_cases h3 : f.length ≤ 3
+  · rw [binarizeRule_small _ _ _ _ _ _ _ h3]
+    have : nlab f = 0 := by unfold nlab; omega
+    simp [ruleAdds, h3, this, build, addD]
+  · rw [binarizeRule_large _ _ _ _ _ _ _ h3]
+    unfold midOf
+    have ih := binMid_build f vert (fanOut l) c (f.length - 4) 1 (uniqueLabel (st.numb + 1)) l ⟨st.numb + 1⟩
+      (res.add [f[0]?.getD [], f[1]?.getD [], uniqueLabel (st.numb + 1)] (topLin l) .default c)
+    have e1 : 1 + (f.length - 4) + 1 = f.length - 2 := by omega
+    have e2 : 1 + (f.length - 4) + 2 = f.length - 1 := by omega
+    have e3 : f.length - 3 = (f.length - 4) + 1 := by omega
+    rw [e1, e2] at ih
+    simp only [nextLabel]
+    rw [ih.2]
+    congr 1
+    · apply genState_ext
+      have := ih.1
+      simp only at this
+      rw [this]; unfold nlab; omega
+    · simp only [ruleAdds, h3, if_false]
+      rw [e3]
+      simp [chainR, withCount, build, addD]
+
+theorem fold_build (r : Reordering) : ∀ (rs : List Rule) (st : GenState) (res : Grammar),
+    (rs.foldl (fun (acc : GenState × Grammar) (e : Func × Lin × Nat) =>
+        let (f, l, c) := e
+        let (f', l') := reorder r f l
+        binarizeRule none f' l' c [] acc.1 acc.2) (st, res)).2 =
+      build (allAdds st.numb (rs.map fun e => ((reorder r e.1 e.2.1).1, (reorder r e.1 e.2.1).2, e.2.2))) res
+  | [], st, res => rfl
+  | e :: rs, st, res => by
+    obtain ⟨f, l, c⟩ := e
+    simp only [List.foldl_cons, List.map_cons, allAdds]
+    rw [binarizeRule_build, fold_build r rs, build_append]
+
+theorem binarizeGrammar_build (r : Reordering) (g : Grammar) :
+    binarizeGrammar r none g = build (allAdds 0 (reordered r g)) [] := by
+  unfold binarizeGrammar reordered
+  exact fold_build r g.rules {} []
+
 end TT.Lemmas.Unbin
